@@ -580,7 +580,9 @@ def run_C18(ctx, E):
 
 _seqhash_note = ("trusted: TLC, community modules; the digest is uninterpreted in the specification and instantiated "
                  "in the replayer by a from-scratch BLAKE3 transcription pinned by the official test vectors; "
-                 "double-stranded inputs containing Z or (under type DNA) U are outside the strand clause and not replayed")
+                 "double-stranded inputs containing Z or (under type DNA) U are outside the strand clauses (invariance, "
+                 "separation); for DNA spelled with U the value clause alone (tag and digest of the lesser of the text "
+                 "and its reverse complement) is replayed by C05 (mode dnau)")
 PROPS = {
     "C15": dict(run=run_C15,
                 technique="TLC enumeration of location trees with the published JSON form and the re-linking rule "
@@ -767,8 +769,12 @@ PROPS = {
                            "as multisets, upper and lower case; recorded digests with BsaI, BbsI, BtgZI and random "
                            "custom enzymes on layouts of 20-3000 bases with 0-6 sites (every rotation of plasmids up to "
                            "300 bases) are recomputed by C10_Trace",
-                level_note="trusted: TLC, community modules; the domain restriction (no overlapping occurrences, paired "
-                           "cuts at least 2*skip+2*overhang apart) is decided by the specification (InDomain)",
+                level_note="trusted: TLC, community modules; fragments are delimited by CUTS in cut order (a backward "
+                           "site close behind a forward one cuts upstream of it and is not its partner); the domain "
+                           "restriction (no overlapping occurrences, overhang not longer than the site, paired cuts at "
+                           "least two overhang lengths apart and lying between their two sites) is decided by the "
+                           "specification (InDomainS); a panic of the real call is an outcome judged by the "
+                           "specification",
                 rule="S->I: one case per in-domain string (linear + circular); non-trivial = at least one fragment; "
                      "I->S: one event per CutWithEnzyme call"),
     "C07": dict(run=run_C07,
